@@ -270,6 +270,34 @@ func sqlBoundaryInputs() []string {
 		for _, k := range []int{32764, 32765, 32766, 32767, 32768, 32769} {
 			add("x' and 1" + strings.Repeat(",1", k))
 		}
+		// (g) every multi-word key of the table between prefixes and suffixes that leave 0..2 unfolded tokens in front of it
+		var phrases []string
+		for k, v := range kwTab() {
+			if v != 'F' && strings.Contains(k, " ") {
+				phrases = append(phrases, gen.LowerASCII(k))
+			}
+		}
+		sort.Strings(phrases)
+		for _, ph := range phrases {
+			for _, pre := range []string{"", "1 ", "1 + ", "1 , ", "foo = ", "( ", "1 or ", "select ", "x' ", "1 ; ", "1 union ", ") "} {
+				for _, suf := range []string{"", " 1", " or 1", " (1)", " foo", " --", " t values(1)", " 1 or 1=1"} {
+					add(pre + ph + suf)
+				}
+			}
+		}
+		// (h) the eleven function-like names in every token form, in front of '('
+		for _, nm := range []string{"user_id", "user_name", "database", "password", "user", "current_user", "current_date", "current_time", "current_timestamp", "localtime", "localtimestamp", "version", "sleep"} {
+			for _, form := range []string{nm, "`" + nm + "`", "@" + nm, "@@" + nm, "[" + nm + "]", gen.UpperASCII(nm), "@`" + nm + "`"} {
+				for _, t := range []string{"1 or W() = 1", "1 or W(1) = 1", "1 or W () like 'r%'", "x' and W()=1 --", "select W()", "W(", "1 union select W() from t"} {
+					add(strings.ReplaceAll(t, "W", form))
+				}
+			}
+		}
+		// (i) very long inputs (a work bound or a narrow integer type shows only beyond 64 kB / 1 MB / 4 MB / 16 MB)
+		for _, n := range []int{65536 + 1, 1<<20 + 1, 4<<20 + 33, 16<<20 + 7} {
+			add("1" + strings.Repeat(" ", n) + " union select password from users")
+			add("x' or '" + strings.Repeat("a", n) + "'='a' union select 1 -- ")
+		}
 		// (e) byte-order mark and alias runes in front of fixtures
 		for i, f := range corp().SQL {
 			if i%4 == 0 {
